@@ -8,8 +8,9 @@ import (
 	"github.com/shopspring/decimal"
 )
 
+// verifEval evaluates through the public entry point, as group membership does.
 func verifEval(env envs.Environment, node QueryNode, q Queryable) bool {
-	return evaluateNode(env, verifResolver(), node, q)
+	return EvaluateQuery(env, &ContactQuery{root: node, resolver: verifResolver()}, q)
 }
 
 var verifCmpOps = []Operator{OpLessThan, OpEqual, OpGreaterThan, OpLessThanOrEqual, OpGreaterThanOrEqual, OpNotEqual}
@@ -132,7 +133,13 @@ func VerifC15_Presence() {
 // verifLeaf builds one of a few leaf conditions over text properties whose
 // contact values are arbitrary.
 func verifLeaf(i int) *Condition {
-	switch zzverif.Choice("leaf", 4) {
+	switch zzverif.Choice("leaf", 7) {
+	case 4: // an attribute, a field and a URN scheme may share a key
+		return NewCondition(PropertyTypeAttribute, AttributeLanguage, OpEqual, "eng")
+	case 5:
+		return NewCondition(PropertyTypeField, "language", OpEqual, "fra")
+	case 6:
+		return NewCondition(PropertyTypeField, "tel", OpNotEqual, "")
 	case 0:
 		return NewCondition(PropertyTypeField, "nick", OpEqual, "ab")
 	case 1:
@@ -195,7 +202,7 @@ func verifTree(depth int) QueryNode {
 // conjunction and disjunction and Simplify never changes the result, for
 // every tree of depth ≤ 2 over leaf conditions evaluated against arbitrary
 // contact values; no panic.
-// cover: and, or, nested, simplified-differs
+// cover: and, or, nested, simplified-differs, same-key-different-types
 func VerifC15_Compositional() {
 	env := envs.NewBuilder().Build()
 	q := &verifQueryable{vals: map[string][]any{}}
@@ -204,6 +211,15 @@ func VerifC15_Compositional() {
 	}
 	if zzverif.Choice("has-tel", 2) == 1 {
 		q.vals["urn:tel"] = []any{[]string{"xabcx", "abx"}[zzverif.Choice("tel", 2)]}
+	}
+	// same-keyed properties of different types with different values
+	switch zzverif.Choice("languages", 3) {
+	case 1:
+		q.vals["attr:language"] = []any{"eng"}
+	case 2:
+		q.vals["attr:language"] = []any{"eng"}
+		q.vals["field:language"] = []any{"fra"}
+		zzverif.Cover("same-key-different-types")
 	}
 	tree := verifTree(2)
 	zzverif.Assert(tree.validate(env, verifResolver()) == nil, "tree rejected by the validator")
